@@ -9,7 +9,8 @@
     * `reader_equiv_rfc5234`: each of the 21 RFC 5234 meta rules X: rfc5234.Rule(X) matches the same spans as the
       reader's X "modulo the RFC 7405 string forms", made precise as: in the reader's table with `char-val` replaced by
       its RFC 5234 form (a bare quoted-string) - `meta5234`.
-    * `rfc7405_is_rfc`: composed with C05, the bundled RFC 7405 module's rules denote the RFC's grammar.
+    * (corollary `SelfDescription.rfc7405_is_rfc`, Abnf/SelfDescription.lean: composed with C05, the bundled RFC 7405
+      module's rules denote the RFC's own grammar.)
     * `accepted_alike_rfc7405`: at ENGINE level - the model's `parse_all` run on the reader's table accepts a text with
       rule X iff the model's `parse_all` run on the bundled table accepts it with rfc7405.Rule(X); otherwise both answer
       ParseError.  (The reader's table is plain, well-formed and closed; the bundled rules reached from the RFC 7405 module
@@ -19,8 +20,9 @@
 -/
 import Abnf.Equiv
 import Abnf.AcceptOn
-import Abnf.Theorems.C09
-import Abnf.Theorems.C05
+import Abnf.Obligations.BundledFacts
+import Abnf.Obligations.Meta
+import Abnf.WfCheck
 import AbnfGen.Bundled
 import AbnfGen.Pairs
 namespace Abnf.C15
@@ -88,11 +90,6 @@ theorem accepted_alike_rfc7405 (X : String) (a b : Nat) (hs : (X, a, b) ∈ Abnf
     (plainOnG_sound _ _ reach_plain_7405) perm2 hp2 s b hmb
     (defined_of_closedFast _ Obl.Bundled.bundled_closed b hlb) f2 hf2
   exact ⟨A.1.trans ((reader_equiv_rfc7405 X a b hs s 0 s.length).trans B.1.symm), A.2, B.2⟩
-
-/-- composed with C05: the bundled RFC 7405 module's rules denote the RFC's own grammar (`Ref.rfcG`) -/
-theorem rfc7405_is_rfc (X : String) (a b r : Nat) (hs : (X, a, b) ∈ AbnfGen.c15Seeds7405) (hr : (a, r) ∈ C05.pairs)
-    (s : Src) (i j : Nat) : M AbnfGen.bundledG s (.ref b) i j ↔ M Ref.rfcG s (.ref r) i j :=
-  (reader_equiv_rfc7405 X a b hs s i j).symm.trans (C05.reader_equiv_rfc a r hr s i j)
 
 /-- non-vacuity -/
 example : AbnfGen.c15Seeds7405.length = 24 ∧ AbnfGen.c15Seeds5234.length = 21 := by decide +kernel
